@@ -17,7 +17,7 @@ values because several inputs go through `String.toInt?`, which the kernel canno
 hypothesis `Loaded` of TieA27 holds for a concrete file.
 -/
 set_option linter.unusedVariables false
-namespace Gaftools.NonVacuous
+namespace Gaftools.NonVacuousB
 
 def exOk {ε α : Type} [BEq α] (r : Except ε α) (v : α) : Bool :=
   match r with
@@ -705,4 +705,4 @@ example : wholeFile (E27 oP recsU false) none TS27 = Except.ok ((E27 oP recsU fa
   (E27 oP recsU false).rawLines == [">a>b>c \n", ">a>h>c \n"]
 end A27
 
-end Gaftools.NonVacuous
+end Gaftools.NonVacuousB
